@@ -28,5 +28,6 @@ CONSTANTS
   Bounded = TRUE
   Mut = "none"
 INVARIANT NoViolation
+INVARIANT RecoverAgrees
 VIEW View
 CHECK_DEADLOCK FALSE
